@@ -142,7 +142,7 @@ def query(sp, name, args):
     if name == "ww":
         return num(sp.get_WW_hydropathy())
     if name == "ppii":
-        return num(sp.get_PPII_propensity(args[0]))
+        return num(sp.get_PPII_propensity(args[0]) if args[0] != "default" else sp.get_PPII_propensity())
     if name == "mw":
         return num(sp.get_molecular_weight())
     if name == "scd":
@@ -187,7 +187,8 @@ def query(sp, name, args):
         return ("skip",)
     if name == "phq":
         n, d = (args[1].split("/") + ["1"])[:2]
-        pH = int(n) if d == "1" and len(n) % 2 == 0 else float(int(n)) / float(int(d))
+        # a token without "/" is passed as a Python int, "n/1" as a float
+        pH = int(n) if "/" not in args[1] else float(int(n)) / float(int(d))
         f = {"ncpr": sp.get_NCPR, "fcr": sp.get_FCR, "mnc": sp.get_mean_net_charge, "fer": sp.get_fraction_expanding}[args[0]]
         return num(f(pH))
     if name == "pisound":
